@@ -7,7 +7,7 @@
 (* event fails is appended, by name, to `rej`.  Properties: C01, C05, C06, *)
 (* C08 (and the sequential half of the C02 metadata-callback clause).      *)
 (***************************************************************************)
-EXTENDS MCAPFormat, Json, IOUtils
+EXTENDS MCAPFormat, RosConv, Json, IOUtils
 
 Trace == ndJsonDeserialize(IOEnv.TRACE)
 
@@ -17,7 +17,7 @@ vars == <<l, st, rej>>
 NoRun == [id |-> "", phase |-> "none"]
 
 NewRun(e) == [id |-> e.id, phase |-> "new", cfg |-> e.cfg, tmax |-> e.tmax, lib |-> e.lib,
-              header |-> <<>>, data |-> <<>>, atts |-> <<>>, mds |-> <<>>, file |-> <<>>, bad |-> FALSE]
+              header |-> <<>>, data |-> <<>>, atts |-> <<>>, mds |-> <<>>, file |-> <<>>, bad |-> FALSE, src |-> <<>>]
 
 (* a call is expected to succeed unless it is an attachment whose source misbehaves *)
 ExpectOK(e) == ~(e.op = "attachment" /\ e.src # "")
@@ -50,14 +50,16 @@ JudgeFile(s, f) ==
   ELSE IF f.lead = s.cfg.skipMagic THEN {"C05/LeadingMagic"}
   ELSE LET fc == FileContent(f)
            hdr == f.recs[1]
-           sr == StatsRec(f) IN
+           sr == StatsRec(f)
+           ext == "external" \in DOMAIN s.cfg        \* written by a converter: the logical content is judged separately (C18)
+           cont == IF ext THEN fc ELSE Content(s) IN
        Failed("C05", IndexExactNames(f, s.cfg))
        \cup Failed("C06", CrcNames(f, s.cfg))
-       \cup Failed("C05/Content", SameContentNames(Content(s), fc))
+       \cup Failed("C05/Content", SameContentNames(cont, fc))
        \cup (IF s.header # <<>> /\ hdr.profile = s.header[1].profile /\ hdr.library = s.header[1].library THEN {} ELSE {"C05/Content/Header"})
        \cup (IF s.cfg.skipStats THEN (IF sr = <<>> THEN {} ELSE {"C05/StatisticsPresent"})
              ELSE IF Len(sr) # 1 THEN {"C08/StatisticsRecord"}
-             ELSE Failed("C08", StatsNames(sr[1], Content(s), Cardinality(KindIdx(f, "Chunk")))))
+             ELSE Failed("C08", StatsNames(sr[1], cont, Cardinality(KindIdx(f, "Chunk")))))
 
 (* ------------------------------------------------------------------ reads *)
 TokSame(t, c) ==
@@ -187,6 +189,7 @@ Step(s, e) ==
   CASE e.ev = "Run"  -> NewRun(e)
     [] e.ev = "New"  -> IF e.ret = "ok" THEN s ELSE [s EXCEPT !.phase = "dead"]
     [] e.ev = "Call" -> ApplyCall(s, e)
+    [] e.ev \in {"BagIn", "DbIn"} -> [s EXCEPT !.src = <<e>>]
     [] e.ev = "End"  -> NoRun
     [] OTHER -> s
 
@@ -200,6 +203,9 @@ Judge(s, e) ==
     [] e.ev = "Sink"   -> JudgeSink(e)
     [] e.ev = "AttSrc" -> JudgeAttSrc(e)
     [] e.ev \in {"Pin", "WriteTool", "ReadTool"} -> JudgeConformance(e)
+    [] e.ev = "BagOut" /\ s.src # <<>> -> Failed("C18/Bag", BagNames(s.src[1], e))
+    [] e.ev = "DbOut" /\ s.src # <<>> -> Failed("C18/Db3", DbNames(s.src[1], e))
+    [] e.ev = "BagCase" -> IF e.class \in {"ok", "error", "eof"} THEN {} ELSE {"C18/BagRobustness/" \o e.class \o "/" \o e.kind}
     [] e.ev = "PyRead" -> JudgePy(s, e)
     [] e.ev = "PyWrite" -> IF e.ok THEN {} ELSE {"C16/PythonWriter/Failed"}
     [] OTHER -> {}
